@@ -7,6 +7,27 @@ From Pq Require Import Base.Bytes Thrift.Varint Thrift.Compact Proofs.CompactPro
 Import ListNotations.
 Open Scope N_scope.
 
+Section Ids.
+Variable fids : list Z.
+Hypothesis Hasc : asc 0 fids.
+Local Notation w_thrift := (CThrift.w_thrift fids).
+Local Notation t_thrift := (CThriftSpec.t_thrift fids).
+Local Notation w_top := (CThrift.w_top fids).
+Local Notation t_top := (CThriftSpec.t_top fids).
+Local Notation ser := (CThrift.ser fids).
+Local Notation to_bytes := (CThrift.to_bytes fids).
+Local Notation dom := (CThriftSpec.dom fids).
+Local Notation w_thrift_spec := (CThriftProofs.w_thrift_spec fids Hasc).
+Local Notation ser_spec := (CThriftProofs.ser_spec fids Hasc).
+Local Notation t_good := (CThriftRoundtrip.t_good fids Hasc).
+Local Notation t_eq := (CThriftRoundtrip.t_eq fids Hasc).
+Local Notation to_bytes_fits := (CThriftRoundtrip.to_bytes_fits fids).
+Local Notation t_thrift_S := (CThriftRoundtrip.t_thrift_S fids).
+Local Notation dom_fields := (CThriftRoundtrip.dom_fields fids).
+Local Notation t_dict := (CThriftRoundtrip.t_dict fids).
+Local Notation ser_dict := (CThriftMain.ser_dict fids Hasc).
+Local Notation roundtrip := (CThriftMain.roundtrip fids Hasc).
+
 Lemma t_items_total f (P : pv -> Prop) : (forall x, P x -> exists t, f x = Some t) ->
   forall l, Forall P l -> exists l', t_items f l = Some l'.
 Proof.
@@ -37,11 +58,11 @@ Proof.
   destruct v as [|b|z|f|l|l|l|a b c]; cbn [t_field].
   - congruence.
   - eexists; reflexivity.
-  - cbn [dom] in Hdom. rewrite Hdom. eexists; reflexivity.
+  - cbn [CThriftSpec.dom] in Hdom. rewrite Hdom. eexists; reflexivity.
   - discriminate Hdom.
   - eexists; reflexivity.
   - eexists; reflexivity.
-  - cbn [dom] in Hdom. apply andb_true_iff in Hdom. destruct Hdom as [_ Hel].
+  - cbn [CThriftSpec.dom] in Hdom. apply andb_true_iff in Hdom. destruct Hdom as [_ Hel].
     destruct l as [|first r]; cbn [t_list_with]; [eexists; reflexivity|].
     destruct first as [|b0|z0|f0|b0|s0|l0|a0 b0 c0]; try discriminate Hel.
     + destruct (t_items_total t_int_elem (fun x => match x with PInt z => in_cint z | PBool _ => true | _ => false end = true)) with (l := PBool b0 :: r) as [l' El];
@@ -67,7 +88,7 @@ Proof.
     rewrite t_thrift_S.
     assert (Htd : td_total (t_dict k) k).
     { intros j' a' b' c' Hj' Hd'. apply (IH j' a' b' c' Hj' Hd'). }
-    destruct (t_fields_total (t_field (t_dict k) a b) c ids13) as [l El].
+    destruct (t_fields_total (t_field (t_dict k) a b) c fids) as [l El].
     + intros i v _ Hl Hn. destruct (dom_fields j a b c i v Hdom Hl Hn) as [Hdv _].
       apply (field_total (t_dict k) k a b i j v Htd ltac:(lia) Hdv Hn).
     + rewrite El. eexists. reflexivity.
@@ -85,3 +106,4 @@ Proof.
   - intros cap Hc. apply (to_bytes_fits cap _ _ Es Hc).
   - apply (roundtrip _ _ Hdom Es).
 Qed.
+End Ids.
